@@ -91,7 +91,7 @@ def _dag(draw):
         cands = ["root"]
         ints = of("int", "small", "bool")
         if ints:
-            cands += ["bin", "bin", "bin", "un", "cmp", "smallify", "helper_num", "where", "pipe", "mat", "guard"]
+            cands += ["bin", "bin", "bin", "un", "cmp", "smallify", "helper_num", "where", "pipe", "mat", "guard", "attr"]
         if of("str"):
             cands += ["strop"]
         if of("list"):
@@ -158,6 +158,10 @@ def _dag(draw):
             x = draw(st.one_of(st.integers(-2, 3).map(lambda v: ["c", v]), st.sampled_from(ints).map(lambda j: ["n", j])))
             y = draw(st.one_of(st.integers(-2, 3).map(lambda v: ["c", v]), st.sampled_from(ints).map(lambda j: ["n", j])))
             nodes.append((["where", c, x, y], "int"))
+        elif k == "attr":
+            # a bare attribute access (`n.real`): the resulting node can be used by several later nodes like any other
+            a = draw(st.sampled_from(ints))
+            nodes.append((["attr", a, draw(st.sampled_from(["real", "imag", "numerator", "denominator"]))], "int"))
         elif k == "guard":
             # the guard pattern: (d != 0).rx.where(n // d, fallback) - the unselected branch may raise
             d_ = draw(st.sampled_from(ints))
@@ -458,6 +462,10 @@ def execute(case):
                 elif k == "getitem":
                     used[spec[1]] = used.get(spec[1], 0) + 1
                     node = rxn[spec[1]][rx_operand(spec[2])]
+                elif k == "attr":
+                    used[spec[1]] = used.get(spec[1], 0) + 1
+                    node = getattr(rxn[spec[1]], spec[2])
+                    marks.add("attribute_access")
                 elif k == "getslice":
                     used[spec[1]] = used.get(spec[1], 0) + 1
                     node = rxn[spec[1]][slice(*[None if o is None else rx_operand(o) for o in spec[2:5]])]
@@ -699,6 +707,8 @@ def _plain_all(dag, input_plain):
                 v = (m @ Mat(spec[3])) if spec[1] == "nc" else (Mat(spec[3]) @ m)
             elif k == "getitem":
                 v = node(spec[1])[operand(spec[2])]
+            elif k == "attr":
+                v = getattr(node(spec[1]), spec[2])
             elif k == "getslice":
                 v = node(spec[1])[slice(*[None if o is None else operand(o) for o in spec[2:5]])]
             elif k == "method":
